@@ -18,7 +18,10 @@ META = {
             "finish(0)/flush only under the engine model's guards; (2c) the publication wrapper Committer<T> as a state machine (valid / moved-from / released; what the move "
             "constructor, move assignment, destructor, release(), cancel() and get() do is regenerated from data.hpp): for "
             "every program of committer operations a data is published exactly once, at release()/destruction of its unique "
-            "valid committer, never by a move, and never written after publication; (3) an event-level engine model of a whole run for every "
+            "valid committer, never by a move, and never written after publication; (2d) Graph::run binding n targets (the two steps of GraphData::bind in the order regenerated from the source) "
+            "against concurrent releasers of those targets, every n and schedule: finished with success only when run() "
+            "has fired and every requested target is sealed (needs count-before-attach; the extracted machine is also "
+            "explored exhaustively for 2 and 3 targets on every run); (3) an event-level engine model of a whole run for every "
             "acyclic graph, input, target set and schedule: values of ready data equal the sequential evaluation, only "
             "needed vertices are activated, every data is sealed once; with wait() every step decreases a measure, no "
             "unflushed state is stuck and a flushed state is finished with no vertex running (termination without "
@@ -29,7 +32,9 @@ META = {
             "processors publish through Committer<T> in six ways (in place, move-constructed, moved twice + "
             "move-assigned, move-assigned over a valid committer, explicit release, moved into a spawned thread that fills "
             "and releases later); final values, invocation inputs, needed-vertex bounds and error class must equal the "
-            "model's sequential evaluation; random committer programs run on the real class and on the extracted machine "
+            "model's sequential evaluation; in 'y' cases requested targets are emitted by other threads "
+            "concurrently with run() (success must still give every target its sequential value, producers of non-injected "
+            "targets run once); random committer programs run on the real class and on the extracted machine "
             "and must agree on which operation published each data and with what content; one-dependency graphs are explored exhaustively in the extracted protocol machine and every "
             "implementation outcome must be admitted; monitors check the property text on every run.",
     "note": "Trusted: Coq kernel; translator; extraction (ExtrOcamlBasic) + OCaml explorer/driver; macro shim and dsched "
@@ -371,7 +376,7 @@ def parse_cycle(s):
     return int(f["code"]), vals, ran, act, f.get("inj", "")
 
 
-def check_cycle(chk, rep, cyc, graph, presets, inj_threads, targets, s):
+def check_cycle(chk, rep, cyc, graph, presets, inj_threads, targets, s, yinj=False):
     """monitors that need the reference interpreter; returns a key describing the observed behaviour"""
     code, vals, ran, act, inj = parse_cycle(s)
     injects = dict((d, v) for th in inj_threads for (d, v, _) in th)
@@ -402,6 +407,9 @@ def check_cycle(chk, rep, cyc, graph, presets, inj_threads, targets, s):
                 chk.violate("mon-inputs", tag + "vertex %d saw inputs [%s], sequential evaluation gives [%s]: %s" %
                             (v, ran[v], want, s), rep)
     for v in act:
+        if yinj:
+            break      # targets injected concurrently can finish the closure early; vertices skipped after the finish flush
+            #            empty data, which may activate (never run) vertices the sequential evaluation does not need
         if v not in hi_act:
             chk.violate("mon-unneeded-activated", tag + "vertex %d is not needed by the targets but was activated: %s" % (v, s),
                         rep)
@@ -457,11 +465,30 @@ def main(argv):
                 cases.append(("g%d.%d" % (gi, si), rng.below(1 << 31), strat, ex, cycles, graph, pres, inj, targets))
     if not chk.replay:
         cases.append(XDIR)
+        # 'y' cases: requested targets (not the last one by preference) are emitted by another thread concurrently with
+        # run(); value = the sequential value (whoever wins the acquire publishes the same content), producer-less
+        # targets keep their preset value
+        ybase = [c for c in cases if not c[3].endswith("x") and len(c[8]) >= 2 and not c[7]]
+        ny = 60 if not thorough else 400
+        for c in ybase[:: max(1, len(ybase) // ny)][:ny]:
+            cid, seed, strat, ex, cycles, graph, presets, inj, targets = c
+            env, _ = ref_eval(graph, dict(presets))
+            trivial_emits = set(d for fl, _, em in graph if "t" in fl for d in em)
+            cand = [t for t in targets[:-1] if t in env and t not in trivial_emits] or [t for t in targets if t in env and t not in trivial_emits]
+            if not cand:
+                continue
+            hit = [cand[rng.below(len(cand))]]
+            if len(cand) > 1 and rng.chance(1, 3):
+                hit = cand[:2]
+            pres = [p for p in presets if p[0] not in hit]
+            threads = [[(t, env[t], rng.below(14))] for t in hit]
+            cases.append(("y" + cid, rng.below(1 << 31), [0, 3, 0, 1][len(cases) % 4], (ex if ex != "I" else ["I", "P2"][len(cases) % 2]) + "y", 1,
+                          graph, pres, threads, targets))
     lines = []
     xlines = []          # 'x' mode: one driver process per case, run last (a crash there cannot touch any other case)
     meta = {}
     for c in cases:
-        (xlines if c[3].endswith("x") else lines).append(case_line(*c))
+        (xlines if c[3][-1] in "xy" else lines).append(case_line(*c))
         meta[c[0]] = c
     # unit cases: the real GraphVertex::activate against the real release() of its condition / target, 3 threads
     ucfg = {"u11": ("1", "1", "-:1?0:2", "0=1", "1=7"), "u10": ("1", "0", "-:1!0:2", "0=1", "1=7"),
@@ -506,7 +533,8 @@ def main(argv):
     model_out = {}
     dep_sets = {}
     if model:
-        model_out = chk.run_cases(model, lines + klines + ["D%s%s D %s %s" % (hc, ho, hc, ho) for hc, ho in (("1", "1"), ("1", "0"), ("0", "0"))],
+        model_out = chk.run_cases(model, lines + klines + ["B2 B 2", "B3 B 3"] +
+                                  ["D%s%s D %s %s" % (hc, ho, hc, ho) for hc, ho in (("1", "1"), ("1", "0"), ("0", "0"))],
                                   timeout=900)
         for k in ("D11", "D10", "D00"):
             l = model_out.get(k, "")
@@ -514,6 +542,18 @@ def main(argv):
                 chk.broke("correspondence", "dependency protocol exploration " + k, l)
             else:
                 dep_sets[k] = set(l.split("outcomes=", 1)[1].split(";"))
+                chk.cov["states"] = chk.cov.get("states", 0) + int(l.split("states=")[1].split()[0])
+                chk.cov["transitions"] = chk.cov.get("transitions", 0) + int(l.split("trans=")[1].split()[0])
+        for k in ("B2", "B3"):
+            l = model_out.get(k, "")
+            if "early=false" not in l or "unfinished=false" not in l or "trunc=false" not in l:
+                if "early=true" in l:
+                    chk.violate("model-early-finish", "the bind machine (run() binding %s targets against their releasers, bind "
+                                "steps in the source's order) reaches a state where the closure is finished with success "
+                                "before every requested target is sealed: %s" % (k[1], l), {"level": "model", "line": k})
+                else:
+                    chk.broke("correspondence", "bind machine exploration " + k, l)
+            else:
                 chk.cov["states"] = chk.cov.get("states", 0) + int(l.split("states=")[1].split()[0])
                 chk.cov["transitions"] = chk.cov.get("transitions", 0) + int(l.split("trans=")[1].split()[0])
     distinct = set()
@@ -587,7 +627,7 @@ def main(argv):
         if len(parts) != 3:
             chk.broke("harness", "unparsable driver line", l)
             continue
-        if ex.endswith("x"):
+        if ex[-1] in "xy":
             # the one known cause: the closure finished with an error although the sequential evaluation succeeds, at a
             # moment when an external emit() had sealed its data but not yet returned (xp=1); the late release then
             # invokes vertices on the flushed / destroyed closure (xl=1, crash).  Anything else goes through the
@@ -596,8 +636,13 @@ def main(argv):
             racy = False
             for s_ in parts[1].split("#"):
                 f_ = dict(x.split("=", 1) for x in s_.split() if "=" in x)
-                if f_.get("xp") == "1" and f_.get("code") != "0" and not xexp["lo"][1]:
+                if f_.get("xp") == "1" and f_.get("code") != "0" and not xexp["hi" if ex.endswith("y") else "lo"][1]:
                     racy = True
+                if f_.get("xp") == "1" and f_.get("crash"):
+                    racy = True      # the closure finished with an error (expected or not) while an external emit was in
+                    #                  flight and is gone; the late release then touches it: same root cause
+                if f_.get("crash") and f_.get("code") == "0" and f_.get("tr") == "0":
+                    chk.violate("mon-tgtready", WHAT["tgtready"] + " (then crashed): " + parts[1][:300], rep)
             if racy:
                 chk.violate(XSIG, "run() started while another thread was still inside emit()/release() of an input: the "
                             "closure finished with -1 although the sequential evaluation succeeds (vertex count reached 0 "
@@ -614,7 +659,7 @@ def main(argv):
                 chk.violate("mon-" + m, WHAT[m] + ": " + parts[1], rep)
         keys = []
         for cyc, s in enumerate(parts[1].split("#")):
-            keys.append(check_cycle(chk, rep, cyc, graph, presets, inj, targets, s))
+            keys.append(check_cycle(chk, rep, cyc, graph, presets, inj, targets, s, yinj=ex.endswith("y")))
         distinct.add((fmt_graph(graph), tuple(keys)))
         # correspondence with the extracted model (sequential evaluation + demand analysis of AFModel)
         ml = model_out.get(cid)
@@ -627,7 +672,18 @@ def main(argv):
             for cyc, s in enumerate(parts[1].split("#")):
                 code, vals, ran, act, _ = parse_cycle(s)
                 diff = None
-                if (code == 0) != (mf["code"] == "0"):
+                ycase = ex.endswith("y")     # concurrently injected targets: the model takes them as given from the start; an
+                #                              error (injection too late) and extra runs of their producers are admissible
+                if ycase and code != 0:
+                    pass
+                elif ycase:
+                    if any(t < len(vals) and vals[t] != mvals[t] for t in targets):
+                        diff = "target values %s, model %s" % ([vals[t] for t in targets], [mvals[t] for t in targets])
+                    elif any(v not in ran for v in mran):
+                        diff = "processors run %s, model needs %s" % (sorted(ran), sorted(mran))
+                    elif any(v in mran and mran[v] != ran[v] for v in ran):
+                        diff = "inputs seen %s, model %s" % (sorted(ran.items()), sorted(mran.items()))
+                elif (code == 0) != (mf["code"] == "0"):
                     diff = "closure code %d, model expects %s" % (code, mf["code"])
                 elif code == 0 and any(t < len(vals) and vals[t] != mvals[t] for t in targets):
                     diff = "target values %s, model %s" % ([vals[t] for t in targets], [mvals[t] for t in targets])
@@ -651,7 +707,9 @@ def main(argv):
                        "and missing inputs; 1-3 requested targets; executor inplace or 1-3 workers picking queued run tasks in "
                        "random order; optional injector threads; 1-2 run/reset cycles; schedule seed; strategy uniform / "
                        "round-robin+pre-emption / PCT).  publication through Committer<T> in place / moved / move-assigned / explicit release / deferred in a spawned "
-                       "thread.  committer program = random sequence of construct / move-construct / move-assign / write / "
+                       "thread.  'y' case = a graph case with >= 2 targets where one or two requested "
+                       "targets (preferably not the last) are emitted by extra threads concurrently with run(), one process "
+                       "per case.  committer program = random sequence of construct / move-construct / move-assign / write / "
                        "clear / release / destroy / cancel on two data, compared op-for-op with the extracted machine.  "
                        "unit case = one vertex with one (conditional) dependency, "
                        "GraphVertex::activate in one thread against release() of condition and target in two others.  "
